@@ -42,7 +42,10 @@ func isHandledSelectStmt(l *lexer, keyspace Identifier) (handled bool, stmt Stat
 	}
 
 	qualifyingKeyspace, table, t, err := parseQualifiedIdentifier(l)
-	if err != nil || (!keyspace.equal("system") && !qualifyingKeyspace.equal("system")) || !isSystemTable(table) {
+	if qualifyingKeyspace.isEmpty() { // An unqualified table is in the connection's current keyspace
+		qualifyingKeyspace = keyspace
+	}
+	if err != nil || !qualifyingKeyspace.equal("system") || !isSystemTable(table) {
 		return false, nil, err
 	}
 
